@@ -6601,6 +6601,26 @@ func ruleWriteBeforeCallout(c *Ctx) {
 		return
 	}
 	writers := map[string]bool{"pkg/core/dao.(*Simple).PutStorageItem": true, "pkg/core/dao.(*Simple).PutBigInt": true, "pkg/core/dao.(*Simple).DeleteStorageItem": true, "pkg/core/dao.(*Simple).PutStorageConvertible": true}
+	// helpers of the natives that do nothing but such a write (removeDepositFor, putDepositFor ...): one level
+	for _, hd := range c.P.AllFuncDecls() {
+		if hd.Decl.Body == nil || pkgRel(hd.Pkg.Types) != "pkg/core/native" || len(hd.Decl.Body.List) > 6 {
+			continue
+		}
+		hf := c.P.NewFuncCFG(hd)
+		direct := false
+		inspectNoLit(hd.Decl.Body, func(x ast.Node) bool {
+			if ce, ok := x.(*ast.CallExpr); ok {
+				switch hf.calleeSym(ce) {
+				case "pkg/core/dao.(*Simple).PutStorageItem", "pkg/core/dao.(*Simple).PutBigInt", "pkg/core/dao.(*Simple).DeleteStorageItem", "pkg/core/dao.(*Simple).PutStorageConvertible":
+					direct = true
+				}
+			}
+			return true
+		})
+		if direct {
+			writers[FuncKey(hd.Obj)] = true
+		}
+	}
 	n := 0
 	var fns []*ssa.Function
 	for fn := range sources {
@@ -6663,6 +6683,46 @@ func ruleWriteBeforeCallout(c *Ctx) {
 		}
 	}
 	c.Floor("functions that pay out with the callback on", n, 2)
+	// the second family: a native that calls contract code through contract.CallFromNative and goes on in a
+	// continuation. The continuation runs after arbitrary contract code (the token's transfer, the receiver's payment
+	// callback); what it writes was decided before that code ran. Notary.withdraw removes the deposit *before* it
+	// sends the GAS for that reason - removed (again) in the continuation, a deposit the receiver's callback made
+	// in between is deleted while its GAS stays with Notary.
+	m := 0
+	for _, fd := range c.P.AllFuncDecls() {
+		if fd.Decl.Body == nil || pkgRel(fd.Pkg.Types) != "pkg/core/native" {
+			continue
+		}
+		f := c.P.NewFuncCFG(fd)
+		ast.Inspect(fd.Decl.Body, func(x ast.Node) bool {
+			ce, ok := x.(*ast.CallExpr)
+			if !ok || f.calleeSym(ce) != "pkg/core/interop/contract.CallFromNative" {
+				return true
+			}
+			for _, a := range ce.Args {
+				fl, ok := ast.Unparen(a).(*ast.FuncLit)
+				if !ok {
+					continue
+				}
+				m++
+				key := fmt.Sprintf("write-before-callout.continuation.%s#%d", shortSym(FuncKey(fd.Obj)), m)
+				bad := ""
+				ast.Inspect(fl.Body, func(y ast.Node) bool {
+					if inner, ok := y.(*ast.CallExpr); ok && writers[f.calleeSym(inner)] {
+						bad = shortSym(f.calleeSym(inner)) + " at " + c.P.Pos(inner.Pos())
+					}
+					return true
+				})
+				if bad == "" {
+					c.OK(key, c.P.Pos(fl.Pos()), "the continuation of the call into contract code writes no storage record")
+				} else {
+					c.Fail(key, c.P.Pos(fl.Pos()), fmt.Sprintf("%s calls contract code (contract.CallFromNative) and writes storage in the continuation that runs after it (%s): the write was decided before the called contract - and whatever it called back - ran, and undoes what they did in between (a deposit made by the receiver's payment callback is deleted while its GAS stays in the contract)", FuncKey(fd.Obj), bad))
+				}
+			}
+			return true
+		})
+	}
+	c.Floor("continuations behind calls into contract code", m, 3)
 }
 
 // ---------------------------------------------------------------------------
@@ -10720,4 +10780,185 @@ func ruleBlockTrieWritesToCache(c *Ctx) {
 	default:
 		c.Fail("block-trie-cache", c.P.Pos(firstUse), "Module.AddMPTBatch applies the block's changes to a copy of the trie that still writes to the module's own store, not to the cache layer of the block it was given: the node records of a block reach the store the persist timer flushes before - or without - the block itself. A block that is computed and then rejected leaves its records behind, and a flush between computation and commit followed by a crash leaves the trie of block N under a chain at N-1 (in GC mode the next block fails with 'key not found')")
 	}
+}
+
+// ruleTallyFreshCopy (C05): a candidate's vote count lives in one storage record; whoever changes it reads the record,
+// changes the number and writes it back (ModifyAccountVotes). A function that decodes the record early - to validate
+// the candidate - and applies its change to *that* copy later has to be sure nothing rewrote the record in between:
+// when a voter votes again for the candidate it already votes for, taking the voter's NEO off the old candidate
+// rewrites the very record the early copy was decoded from, and writing the early copy back with the balance added
+// counts the voter twice (a candidate with 1800 votes whose voters hold 900 NEO). Between the definition of a local
+// of type candidate and a change of its Votes, the function calls nothing that itself changes a candidate's Votes.
+func ruleTallyFreshCopy(c *Ctx) {
+	pk := c.P.Pkg("pkg/core/native")
+	if pk == nil {
+		return
+	}
+	info := pk.TypesInfo
+	isCandVotes := func(e ast.Expr) (types.Object, bool) {
+		// &cd.Votes or cd.Votes where cd is a local of type (*)candidate
+		if u, ok := ast.Unparen(e).(*ast.UnaryExpr); ok && u.Op == token.AND {
+			e = u.X
+		}
+		se, ok := ast.Unparen(e).(*ast.SelectorExpr)
+		if !ok || se.Sel.Name != "Votes" || !namedTypeIs(info.TypeOf(se.X), "pkg/core/native", "candidate") {
+			return nil, false
+		}
+		return rootObj(info, se.X), true
+	}
+	type mut struct {
+		pos token.Pos
+		obj types.Object
+	}
+	muts := map[*FuncDecl][]mut{}
+	mutators := map[*types.Func]bool{}
+	for _, fd := range c.P.AllFuncDecls() {
+		if fd.Pkg != pk || fd.Decl.Body == nil || strings.HasPrefix(fd.Decl.Name.Name, "From") {
+			continue
+		}
+		ast.Inspect(fd.Decl.Body, func(x ast.Node) bool {
+			switch y := x.(type) {
+			case *ast.CallExpr:
+				se, ok := ast.Unparen(y.Fun).(*ast.SelectorExpr)
+				if !ok {
+					return true
+				}
+				switch se.Sel.Name {
+				case "Add", "Sub", "Set", "SetInt64", "SetUint64", "Neg", "Mul":
+					if o, ok := isCandVotes(se.X); ok {
+						muts[fd] = append(muts[fd], mut{y.Pos(), o})
+						mutators[fd.Obj] = true
+					}
+				}
+			case *ast.AssignStmt:
+				for _, l := range y.Lhs {
+					if o, ok := isCandVotes(l); ok {
+						muts[fd] = append(muts[fd], mut{y.Pos(), o})
+						mutators[fd.Obj] = true
+					}
+				}
+			}
+			return true
+		})
+	}
+	n := 0
+	for fd, ms := range muts {
+		f := c.P.NewFuncCFG(fd)
+		for _, m := range ms {
+			n++
+			key := fmt.Sprintf("tally-fresh-copy.%s#%d", shortSym(FuncKey(fd.Obj)), n)
+			// where the copy was taken
+			def := token.NoPos
+			if v, ok := m.obj.(*types.Var); ok {
+				for _, d := range f.defs[v] {
+					for _, r := range d.rhs {
+						if def == token.NoPos || r.Pos() < def {
+							def = r.Pos()
+						}
+					}
+				}
+				if f.params[v] {
+					def = fd.Decl.Body.Pos()
+				}
+			}
+			if def == token.NoPos {
+				def = fd.Decl.Body.Pos()
+			}
+			bad := ""
+			ast.Inspect(fd.Decl.Body, func(x ast.Node) bool {
+				ce, ok := x.(*ast.CallExpr)
+				if !ok || ce.Pos() <= def || ce.Pos() >= m.pos {
+					return true
+				}
+				if fn := calleeFunc(info, ce); fn != nil && mutators[fn] {
+					bad = shortSym(FuncKey(fn)) + " at " + c.P.Pos(ce.Pos())
+				}
+				return true
+			})
+			if bad == "" {
+				c.OK(key, c.P.Pos(m.pos), "the vote count is changed on a copy nothing has rewritten since it was read")
+			} else {
+				c.Fail(key, c.P.Pos(m.pos), fmt.Sprintf("%s changes the Votes of a candidate record it decoded earlier, after calling %s, which reads, changes and rewrites candidate records itself: when both touch the same record (a voter who votes again for the candidate it already votes for) the early copy still holds what the call has just taken off, and writing it back counts the voter's NEO twice - the candidate's tally exceeds what its voters hold", FuncKey(fd.Obj), bad))
+			}
+		}
+	}
+	c.Floor("changes of a candidate's vote count", n, 1)
+}
+
+// rulePayerBalanceByAccounts (C07, C08): the pool asks the ledger what a payer can spend (mempool.Feer.
+// GetUtilityTokenBalance); for a transaction the Notary contract sponsors that is the deposit of the second signer,
+// for everything else the GAS of the sender. Which of the two applies is a question about the two accounts and
+// nothing else: admission of a sponsored transaction does not depend on a network setting, so the balance it is
+// compared with must not either. Answered with Notary's whole GAS (the sum of everybody's deposits) when a setting is
+// off, the pool holds more sponsored transactions of one payer than its deposit covers, and the block built from
+// it fails in Notary.OnPersist on every node ("negative deposit"). The branch of GetUtilityTokenBalance that looks
+// the deposit up is entered under conditions whose only method calls are on the two account parameters; inside it
+// only the question whether Notary is active may be asked.
+func rulePayerBalanceByAccounts(c *Ctx) {
+	fd := c.P.Func("pkg/core", "Blockchain", "GetUtilityTokenBalance")
+	if fd == nil {
+		c.Lost("payer-balance.anchor", "Blockchain.GetUtilityTokenBalance not found")
+		return
+	}
+	f := c.P.NewFuncCFG(fd)
+	info := f.Info
+	var stack []ast.Node
+	n := 0
+	ast.Inspect(fd.Decl.Body, func(x ast.Node) bool {
+		if x == nil {
+			stack = stack[:len(stack)-1]
+			return true
+		}
+		stack = append(stack, x)
+		ce, ok := x.(*ast.CallExpr)
+		if !ok {
+			return true
+		}
+		fn := calleeFunc(info, ce)
+		if fn == nil || fn.Name() != "BalanceOf" {
+			return true
+		}
+		se, ok := ast.Unparen(ce.Fun).(*ast.SelectorExpr)
+		if !ok || !strings.Contains(types.ExprString(se.X), "notary") {
+			return true
+		}
+		n++
+		// the outermost enclosing if: the choice between deposit and balance
+		var outer *ast.IfStmt
+		for _, s := range stack {
+			if is, ok := s.(*ast.IfStmt); ok {
+				outer = is
+				break
+			}
+		}
+		if outer == nil {
+			c.Fail("payer-balance", c.P.Pos(ce.Pos()), "GetUtilityTokenBalance looks the Notary deposit up unconditionally")
+			return true
+		}
+		bad := ""
+		ast.Inspect(outer.Cond, func(y ast.Node) bool {
+			call, ok := y.(*ast.CallExpr)
+			if !ok {
+				return true
+			}
+			s2, ok := ast.Unparen(call.Fun).(*ast.SelectorExpr)
+			if !ok {
+				return true
+			}
+			if id, ok := ast.Unparen(s2.X).(*ast.Ident); ok {
+				if v, ok := info.ObjectOf(id).(*types.Var); ok && f.params[v] && f.paramIdx[v] >= 0 {
+					return true // a method of one of the two accounts
+				}
+			}
+			bad = types.ExprString(call)
+			return true
+		})
+		if bad == "" {
+			c.OK("payer-balance", c.P.Pos(outer.Pos()), "deposit or balance is chosen by the two accounts alone")
+		} else {
+			c.Fail("payer-balance", c.P.Pos(outer.Pos()), fmt.Sprintf("GetUtilityTokenBalance chooses between the payer's Notary deposit and the sender's GAS under `%s`, which asks %s - something other than the two accounts: where that answer is 'no', a sponsored transaction is compared with the whole GAS of the Notary contract (everybody's deposits), the pool takes more of one payer's transactions than its deposit covers, and the block proposed from the pool fails in Notary.OnPersist on every node", types.ExprString(outer.Cond), bad))
+		}
+		return true
+	})
+	c.Floor("deposit lookups in GetUtilityTokenBalance", n, 1)
 }
